@@ -67,10 +67,9 @@ func newC02universe() *c02universe {
 		u.docs = append(u.docs, d)
 	}
 	// D0: opaque manifest with one symbolic byte
+	// (kept concrete also when sym=1: the document may be pushed under a JSON media type,
+	// and decoding symbolic bytes as JSON is outside the json model)
 	opaque := []byte("opaque")
-	if sym {
-		opaque = verifBytes("opaque", 1)
-	}
 	add(&c02doc{mediaType: c02opaque, data: opaque, wellFormed: true, subject: -1})
 	// D1: image manifest config=blob0 layers=[blob1]
 	add(&c02doc{mediaType: ocispec.MediaTypeImageManifest, wellFormed: true, blobs: []int{1, 0}, subject: -1,
